@@ -299,6 +299,24 @@ META = {
         ],
         run_cap_s=600, shrink_tests=12, shrink_s=200,
     ),
+    "C11": _m(
+        "E", "exploration", (64, 12000), (600, 3000),
+        "Each run = 12 direct da_init / da_step / da_finalize call histories (acceptance sequences of 3-40 values from uniform / low / "
+        "high / constant / extreme families, initial step sizes 1e-3..10, targets, gamma, kappa, t0, 0-2 epoch restarts, eager or jitted, with a "
+        "higher-acceptance twin from the same state at every step); every second run additionally one Engine run of RW / MH (tuning on or "
+        "off) / IWLS / HMC / NUTS with store_kernel_states over a schedule of 2-5 epochs mixing fast / slow / burn-in / posterior, 1-3 chains. "
+        "Non-trivial = at least one dual-averaging step checked; distinct = distinct run signature.",
+        "dual-averaging steps (direct) + kernel transitions (engine)",
+        "distinct (direct histories, kernel, schedule, constants) signatures",
+        ["liesel.goose.da (da_init, da_step, da_finalize), RWKernel, MHKernel, IWLSKernel, HMCKernel, NUTSKernel, TransitionMixin dispatch, Engine"],
+        ["Gaussian dict log-density"],
+        [
+            "one-step oracle: the float64 Hoffman-Gelman recurrence is applied to the previous *stored* state and the recorded acceptance probability and compared with the next stored state (rtol/atol 2e-4 on log quantities), so float32 errors do not accumulate",
+            "epoch restart: the stored mu = log(10 eps0) must match the averaged step size of the previous epoch (times sqrt(tr(old)/tr(new)) for HMC/NUTS after a slow epoch, the documented step-size rescaling of the mass-matrix tuner)",
+            "the 1-ulp exp(log eps) round trip at epoch boundaries is not 'between transitions' and is not flagged",
+        ],
+        run_cap_s=600, shrink_tests=25, shrink_s=200,
+    ),
 }
 
 
@@ -313,6 +331,15 @@ NOT_APPLICABLE["C18"] = (
 )
 
 MANIFEST_TEXT = {
+    "C11": dict(
+        technique="deterministic simulation: seeded acceptance histories through da_init/da_step/da_finalize and seeded engine schedules of the real adapting kernels; stored kernel states vs a float64 dual-averaging model",
+        design_ref="DESIGN.md section 4 C11",
+        level_text="Seeded acceptance-probability histories (with epoch restarts and monotonicity twins) and seeded engine schedules for every "
+        "step-size-adapting kernel; each stored per-iteration tuning state is compared with one step of the float64 Hoffman-Gelman recurrence, "
+        "the per-epoch restart and final averaged step size are checked at epoch boundaries, and in burn-in / posterior epochs the tuning state "
+        "must be bit-identical from one transition to the next. Sampling, not a proof.",
+        level_note="Trusted: numpy float64 arithmetic, blackjax integrators. The density is a stub; da.py and the kernels are real.",
+    ),
     "C12": dict(
         technique="deterministic simulation: seeded engine runs of real HMC/NUTS kernels over key orders/shapes/scales and schedules; stored kernel states vs a float64 reference (co)variance of the recorded history",
         design_ref="DESIGN.md section 4 C12, section 3 world E",
